@@ -12,15 +12,17 @@
 static ssize_t _fast_append(MPT_STRUCT(slice) *sl, size_t nblk, const void *from, size_t esze)
 {
 	MPT_STRUCT(buffer) *buf = sl->_a._buf;
-	size_t pos, avail, add, take, used;
+	size_t pos, avail, take, elem;
 	uint8_t *ptr;
 	pos = sl->_off + sl->_len;
 	avail = buf->_size - pos;
 	
-	add = esze;
+	/* limit to complete elements fitting available space */
+	elem = 0;
 	take = 0;
-	while (add < avail && nblk--) {
+	while (nblk-- && esze <= (avail - take)) {
 		take += esze;
+		++elem;
 	}
 	ptr = (void *) (buf + 1);
 	if (from) {
@@ -30,11 +32,10 @@ static ssize_t _fast_append(MPT_STRUCT(slice) *sl, size_t nblk, const void *from
 	}
 	sl->_len += take;
 	pos += take;
-	used = buf->_used;
-	if (used > pos) {
-		buf->_used = used;
+	if (pos > buf->_used) {
+		buf->_used = pos;
 	}
-	return take;
+	return elem;
 }
 
 /*!
